@@ -81,6 +81,9 @@ def btcOk (res : Nat → Nat) (s : Store) (d : List Nat) (ss : List (List Nat)) 
   decide (P03 (faulted s d) (executable s.m d) ss) &&
   ss.all (fun x => x.all fun n => res n == res (x.headD 0))
 
+/-- `0,1/0/…` — the members asked about per tick; the last entry is the closing sweep -/
+def parseSweeps (s : String) : Option (List (List Nat)) := (items s "/").mapM natList
+
 def handle (op : String) (args : List String) (impl : String) : Option Verdict :=
   match op, args with
   | "sub", [script] => some <| Id.run do
@@ -183,11 +186,16 @@ def handle (op : String) (args : List String) (impl : String) : Option Verdict :
     let showSweeps := fun (ss : List (List Nat)) => joinOr (ss.map fun x => joinOr (x.map toString) ",") "/"
     let model := (match watch sc with | some t => s!"closed@{t}" | none => "waiting") ++ "|" ++ showSweeps (sweeps sc)
     let ok := match impl.splitOn "|" with
-      | [r, _] =>
-        if r == "waiting" then decide (PWatch sc none)
-        else match r.splitOn "@" with
-          | ["closed", t] => (match t.toNat? with | some t => decide (PWatch sc (some t)) | none => false)
-          | _ => false
+      | [r, sw] =>
+        match parseSweeps sw with
+        | none => false
+        | some sws =>
+          if r == "waiting" then decide (PWatch sc none [])
+          else match r.splitOn "@" with
+            | ["closed", t] => (match t.toNat? with
+                | some t => sws.length == t + 1 && decide (PWatch sc (some t) (sws.getLastD []))
+                | none => false)
+            | _ => false
       | _ => false
     return ⟨model, ok, s!"watch:{kind}:n={min n 4}:ticks={min sc.length 4}:closed={(watch sc).isSome}:pendingAtSomeTick={sc.any (·.any (· ≠ .exec))}"⟩
   | "sigwatch", [kind, gas, ns, script] => some <| Id.run do
@@ -196,21 +204,27 @@ def handle (op : String) (args : List String) (impl : String) : Option Verdict :
     if sc.any (·.length ≠ ns.length) || ns.isEmpty then return bad
     let g := if kind = "evm" then gas else "-"
     let showSub := fun (x : List Nat) => joinOr (x.map toString) "," ++ "/" ++ g
-    let model := match watch sc with
+    let showSweeps := fun (ss : List (List Nat)) => joinOr (ss.map fun x => joinOr (x.map toString) ",") "/"
+    let model := (match watch sc with
       | some t => s!"closed@{t}|-|ok"
-      | none => "submitted|" ++ joinOr ((submitAfterTicks sc ns).map showSub) ";" ++ "|ok"
+      | none => "submitted|" ++ joinOr ((submitAfterTicks sc ns).map showSub) ";" ++ "|ok") ++ "|" ++ showSweeps (sweeps sc)
     let ok := match impl.splitOn "|" with
-      | [r, subs, inputs] =>
+      | [r, subs, inputs, sw] =>
         inputs == "ok" &&
-        (if r == "submitted" then
-          (match (items subs ";").mapM (fun it => match it.splitOn "/" with
-              | [xs, gg] => if gg == g then natList xs else none
-              | _ => none) with
-            | some ss => decide (PSubmit ns ss) && decide (PWatch sc none)
-            | none => false)
-        else match r.splitOn "@" with
-          | ["closed", t] => subs == "-" && (match t.toNat? with | some t => decide (PWatch sc (some t)) | none => false)
-          | _ => false)
+        (match parseSweeps sw with
+         | none => false
+         | some sws =>
+          if r == "submitted" then
+            (match (items subs ";").mapM (fun it => match it.splitOn "/" with
+                | [xs, gg] => if gg == g then natList xs else none
+                | _ => none) with
+              | some ss => decide (PSubmit ns ss) && decide (PWatch sc none [])
+              | none => false)
+          else match r.splitOn "@" with
+            | ["closed", t] => subs == "-" && (match t.toNat? with
+                | some t => sws.length == t + 1 && decide (PWatch sc (some t) (sws.getLastD []))
+                | none => false)
+            | _ => false)
       | _ => false
     return ⟨model, ok, s!"sigwatch:{kind}:n={min ns.length 4}:ticks={min sc.length 3}:closed={(watch sc).isSome}:partly={sc.any fun v => v.any (· = .exec) && v.any (· ≠ .exec)}"⟩
   | "submit", [kind, outcome, gas, ns] => some <| Id.run do
